@@ -5,13 +5,17 @@
 package vlibc11
 
 import (
+	"errors"
 	"fmt"
+	"io"
 	"regexp"
 	"runtime"
 	"strings"
+	"sync/atomic"
 	"time"
 
 	"github.com/refraction-networking/conjure/internal/vlib"
+	"github.com/refraction-networking/conjure/pkg/registrars/dns-registrar/dns"
 	pb "github.com/refraction-networking/conjure/proto"
 	"google.golang.org/protobuf/proto"
 	"google.golang.org/protobuf/types/known/anypb"
@@ -64,7 +68,7 @@ func (r Result) Sig(entry string) string {
 
 func (r Result) What() string {
 	if r.Hang {
-		return "no answer within 2 s"
+		return "no answer within 2 s and, run again, within 15 s"
 	}
 	return "panic: " + r.Panic + " in " + r.Frame
 }
@@ -92,8 +96,14 @@ func topFrame() string {
 	return first
 }
 
-// Guard runs f with recover and a watchdog. A hang leaks the goroutine; the harness reports it and goes on.
-func Guard(f func()) Result {
+// Guard runs f with recover and a watchdog. A call that has not returned after 2 s may be a hang or
+// a scheduling stall on a loaded machine: it is given 15 s in all to finish (so that two runs never
+// overlap), and then f is run a second time with a limit of 15 s. Only if the second run does not
+// return either is it a hang (the goroutine leaks; the harness reports it and goes on). Slow is counted
+// in Slow so that a harness can show it in its histogram.
+var Slow int64
+
+func run(f func(), limit time.Duration) (Result, <-chan Result) {
 	done := make(chan Result, 1)
 	go func() {
 		defer func() {
@@ -106,10 +116,27 @@ func Guard(f func()) Result {
 	}()
 	select {
 	case r := <-done:
-		return r
-	case <-time.After(2 * time.Second):
-		return Result{Hang: true}
+		return r, nil
+	case <-time.After(limit):
+		return Result{Hang: true}, done
 	}
+}
+
+func Guard(f func()) Result {
+	r, pending := run(f, 2*time.Second)
+	if !r.Hang {
+		return r
+	}
+	atomic.AddInt64(&Slow, 1)
+	select {
+	case r = <-pending:
+		if r.Panic != "" {
+			return r
+		}
+	case <-time.After(13 * time.Second):
+	}
+	r, _ = run(f, 15*time.Second)
+	return r
 }
 
 // ---------------------------------------------------------------------------------------------
@@ -371,6 +398,122 @@ func (g *Gen) Mutate(in []byte) []byte {
 				b[i], b[j] = b[j], b[i]
 			}
 		}
+	}
+	return b
+}
+
+// ---------------------------------------------------------------------------------------------
+// the byte-level parsers of the DNS channel: canonical forms shared with CJ/Drv/Codec.lean
+
+// ExactCap copies b into a slice whose capacity equals its length: a parser that slices beyond the data
+// then panics instead of silently reading what happens to lie behind it.
+func ExactCap(b []byte) []byte {
+	c := make([]byte, len(b))
+	copy(c, b)
+	return c
+}
+
+func CodecErr(err error) string {
+	switch {
+	case err == nil:
+		return ""
+	case errors.Is(err, io.EOF), errors.Is(err, io.ErrUnexpectedEOF):
+		return "eof"
+	case errors.Is(err, dns.ErrZeroLengthLabel):
+		return "zeroLabel"
+	case errors.Is(err, dns.ErrLabelTooLong):
+		return "labelTooLong"
+	case errors.Is(err, dns.ErrNameTooLong):
+		return "nameTooLong"
+	case errors.Is(err, dns.ErrReservedLabelType):
+		return "reservedLabel"
+	case errors.Is(err, dns.ErrTooManyPointers):
+		return "tooManyPointers"
+	case errors.Is(err, dns.ErrTrailingBytes):
+		return "trailing"
+	case errors.Is(err, dns.ErrIntegerOverflow):
+		return "overflow"
+	case strings.Contains(err.Error(), "invalid message length"):
+		return "invalidLength"
+	case strings.Contains(err.Error(), "too long for length prefix"):
+		return "tooLong"
+	}
+	return "other:" + err.Error()
+}
+
+func OkOrErr(b []byte, err error) string {
+	if err != nil {
+		return "err " + CodecErr(err)
+	}
+	return "ok " + vlib.Hex(b)
+}
+
+func ShowName(n dns.Name) string {
+	if len(n) == 0 {
+		return "@"
+	}
+	l := make([]string, len(n))
+	for i, lab := range n {
+		l[i] = vlib.Hex(lab)
+	}
+	return strings.Join(l, ".")
+}
+
+func ShowMsg(m *dns.Message) string {
+	rr := func(r dns.RR) string {
+		return fmt.Sprintf("%s/%d/%d/%d/%s", ShowName(r.Name), r.Type, r.Class, r.TTL, vlib.Hex(r.Data))
+	}
+	sec := func(rrs []dns.RR) string {
+		l := make([]string, len(rrs))
+		for i := range rrs {
+			l[i] = rr(rrs[i])
+		}
+		return strings.Join(l, ";")
+	}
+	q := make([]string, len(m.Question))
+	for i := range m.Question {
+		q[i] = fmt.Sprintf("%s/%d/%d", ShowName(m.Question[i].Name), m.Question[i].Type, m.Question[i].Class)
+	}
+	return fmt.Sprintf("%d,%d|%s|%s|%s|%s", m.ID, m.Flags, strings.Join(q, ";"), sec(m.Answer), sec(m.Authority), sec(m.Additional))
+}
+
+// NameBytes builds a buffer that looks like DNS name data: labels, pointers (forward, backward, to
+// themselves, in cycles, in long chains), reserved label types, truncations.
+func (g *Gen) NameBytes() []byte {
+	var b []byte
+	for k := g.R.Intn(12) + 1; k > 0; k-- {
+		switch g.R.Intn(7) {
+		case 0, 1:
+			n := g.R.Range(1, 6)
+			b = append(b, byte(n))
+			b = append(b, g.R.Bytes(n)...)
+		case 2:
+			b = append(b, 0)
+		case 3: // pointer to somewhere near
+			off := g.R.Intn(len(b) + 4)
+			b = append(b, 0xc0|byte(off>>8), byte(off))
+		case 4: // pointer to itself or just before
+			off := len(b) - g.R.Intn(3)
+			if off < 0 {
+				off = 0
+			}
+			b = append(b, 0xc0, byte(off))
+		case 5:
+			b = append(b, byte(g.R.U64()))
+		default:
+			b = append(b, 0x40|byte(g.R.Intn(64)), byte(g.R.U64()))
+		}
+	}
+	if g.R.Chance(1, 4) && len(b) > 0 {
+		b = b[:g.R.Intn(len(b))+1]
+	}
+	if g.R.Chance(1, 10) { // a chain of pointers each pointing to the next
+		b = nil
+		n := g.R.Range(8, 14)
+		for i := 0; i < n; i++ {
+			b = append(b, 0xc0, byte(2*(i+1)))
+		}
+		b = append(b, 1, 'x', 0)
 	}
 	return b
 }
